@@ -417,6 +417,8 @@ def check_C02(ctx):
     for c in cases[:2] + cases[-1:]:
         ctx.sample({k: c[k] for k in ("id", "source", "pass", "cfg", "outcome", "out_valid")})
     edit_histories(ctx, "C02", 100)
+    # types added, collected and added again (FunctionBuilder after GC): emission must neither panic nor produce an invalid binary
+    types_oracle(ctx, "C02")
     ctx.assumptions += ["wasmparser's validator with walrus's feature list is the reference for validity", "DWARF generation on is covered by C10's check, not here"]
 
 
@@ -630,7 +632,7 @@ def check_C11(ctx):
     ctl = enum_control_strings(ctx, 4 if q else 5)
     n = 300 if q else 10000
     trace = os.path.join(ctx.work, "xform.ndjson")
-    out = wv(["trace-xform", "inputs=ctl:%s,manyimp,fixtures,file:%s,gen:%d,gen:%d:many,gen:%d:big" % (ctl, DODRIO, n, 6 if q else 60, n // 20), "seed=%d" % ctx.seed, "out=" + trace])
+    out = wv(["trace-xform", "inputs=ctl:%s,manyimp,bodysizes,bodysizes-big,fixtures,file:%s,gen:%d,gen:%d:many,gen:%d:big" % (ctl, DODRIO, n, 6 if q else 60, n // 20), "seed=%d" % ctx.seed, "out=" + trace])
     ctx.notes["harness"] = out.strip().splitlines()[-1]
     r, cases = judge_trace(ctx, "Trace_Xform", trace, slim=lambda c: {"id": c["id"], "source": c["source"], "variant": c.get("variant")})
     ok = [c for c in cases if c["outcome"] == "ok"]
@@ -653,7 +655,7 @@ def check_C10(ctx):
     model_check(ctx, "Body", cfg=cfg, workers=8, label="design-body")
     n = 36 if q else 1500
     trace = os.path.join(ctx.work, "dwarf.ndjson")
-    out = wv(["trace-dwarf", "inputs=manyimp,gen:%d:small,gen:%d,gen:%d:many,fixtures" % (n, n // 3, 4 if q else 40), "seed=%d" % ctx.seed, "out=" + trace])
+    out = wv(["trace-dwarf", "inputs=manyimp,bodysizes,gen:%d:small,gen:%d,gen:%d:many,fixtures" % (n, n // 3, 4 if q else 40), "seed=%d" % ctx.seed, "out=" + trace])
     ctx.notes["harness"] = out.strip().splitlines()[-1]
     r, cases = judge_trace(ctx, "Trace_Dwarf", trace, slim=lambda c: {"id": c["id"], "source": c["source"]})
     ok = [c for c in cases if c["outcome"] == "ok"]
